@@ -41,7 +41,7 @@ unsigned g_err_n;
  * start pointer (offset 0 of its object) and length = index of the first NUL */
 const char *g_sA, *g_sB;
 size_t g_LA, g_LB;
-size_t g_nq_w; /* needs_quotes: witness index */
+size_t g_nq_wA, g_nq_wB; /* needs_quotes: witness index per string */
 
 /* shorthands used by the clause text of contracts/loops/C16_w16.tbl */
 #define W16_OFF(p) __CPROVER_POINTER_OFFSET(p)
@@ -49,6 +49,7 @@ size_t g_nq_w; /* needs_quotes: witness index */
 #define W16_LE(x) __CPROVER_loop_entry(x)
 #define W16_L(p) (W16_SAME((p), g_sA) ? g_LA : g_LB)
 #define W16_S(p) (W16_SAME((p), g_sA) ? g_sA : g_sB)
+#define W16_NQW(p) (W16_SAME((p), g_sA) ? g_nq_wA : g_nq_wB)
 #define W16_QCH(c) ((c) == ' ' || (c) == '\t' || (c) == '\r' || (c) == '"')
 #define W16_ESC(c) ((c) == '"' || (c) == '\\')
 
